@@ -172,6 +172,10 @@ func (c *clientApp) init() (err error) {
 		Ignore:         c.conf.Ignore,
 		FollowSymlinks: c.dirOutFollow,
 	}
+	// The list is extended below (standard patterns, tags sent by other
+	// means).  A source that inherited its ignore list shares the array with
+	// the source it inherited from: extend a copy, not the shared array.
+	store.Ignore = append([]*regexp.Regexp(nil), store.Ignore...)
 	store.AddStandardIgnore()
 
 	configDump := []string{
